@@ -119,13 +119,32 @@ fn positions_in(text: &str) -> Vec<(String, usize, usize)> {
     out
 }
 
+/// The entry of map `v` that the query key `k` names: the key as written if the map has it, else
+/// the entry whose name is the same words in another naming convention (the tool's key-case
+/// converters: `service_config` finds `ServiceConfig`)
+fn key_child<'a>(v: &'a V, k: &str) -> Option<(&'a str, &'a V)> {
+    let m = match v {
+        V::Map(m) => m,
+        _ => return None,
+    };
+    if let Some((kk, x)) = m.iter().find(|(kk, _)| kk == k) {
+        return Some((kk.as_str(), x));
+    }
+    let sk = |t: &str| t.chars().filter(|c| c.is_ascii_alphanumeric()).map(|c| c.to_ascii_lowercase()).collect::<String>();
+    let want = sk(k);
+    if want.is_empty() || !k.chars().any(|c| c == '_' || c == '-' || c.is_ascii_uppercase()) {
+        return None;
+    }
+    m.iter().find(|(kk, _)| sk(kk) == want && !kk.is_empty()).map(|(kk, x)| (kk.as_str(), x))
+}
+
 /// Can the pointer segments `segs` (from value `v`) be produced by following a prefix of `parts`,
 /// such that the first unconsumed part does not exist under the reached value?
 fn reaches_gap(v: &V, parts: &[Part], segs: &[&str]) -> bool {
     if segs.is_empty() {
         return match parts.first() {
             None => false, // the whole query resolved: it is not unresolved here
-            Some(Part::Key(k)) => v.get(k).is_none(),
+            Some(Part::Key(k)) => key_child(v, k).is_none(),
             Some(Part::Idx(i)) => !matches!(v, V::List(l) if (i.unsigned_abs() as usize) < l.len()),
             Some(Part::Star) => matches!(v, V::List(l) if l.is_empty()) || matches!(v, V::Map(m) if m.is_empty()),
             Some(Part::AllIdx) => matches!(v, V::List(l) if l.is_empty()),
@@ -152,7 +171,11 @@ fn reaches_gap(v: &V, parts: &[Part], segs: &[&str]) -> bool {
         }
     };
     match p {
-        Part::Key(k) => segs[0] == k && step(segs[0]).map_or(false, |n| reaches_gap(n, rest, &segs[1..])),
+        // the entry the key names (as written first, through case conversion second) - no other
+        Part::Key(k) => match v {
+            V::Map(_) => key_child(v, k).map_or(false, |(actual, n)| actual == segs[0] && reaches_gap(n, rest, &segs[1..])),
+            _ => segs[0] == k && step(segs[0]).map_or(false, |n| reaches_gap(n, rest, &segs[1..])),
+        },
         Part::Idx(i) => segs[0].parse::<i64>().ok() == Some((*i as i64).abs()) && step(segs[0]).map_or(false, |n| reaches_gap(n, rest, &segs[1..])),
         Part::VarKey(_) => step(segs[0]).map_or(false, |n| reaches_gap(n, rest, &segs[1..])),
         Part::Star | Part::AllIdx | Part::Filter(_) | Part::CapFilter(..) | Part::KeysFilter { .. } | Part::KeysFilterVar { .. } => {
@@ -430,6 +453,33 @@ fn random_case(u: &mut Choices, sz: Size) -> CaseResult {
         let mut c4 = cl_un(big(vec![Part::Idx(12), Part::Key("nosuch".into()), Part::Key("deeper".into())]), UnOp::Exists, false);
         c4.msg = Some("big4".into());
         file.rules.push(Rule { name: "zbig".into(), when: None, lets: vec![], body: vec![vec![Item::Clause(c1)], vec![Item::Clause(c2)], vec![Item::Clause(c3)], vec![Item::Clause(c4)]] });
+    }
+    // a fifth of the documents hold a map reached through key-case conversion that has an entry both
+    // under the spelling the rules use and under another spelling of the same words
+    if u.chance(1, 5) {
+        let inner = |k: i64| V::Map(vec![("k".into(), V::Int(k)), ("targets".into(), V::List(vec![V::Int(k), V::Int(k + 1)]))]);
+        let mut entries = vec![("log_level".to_string(), inner(1)), ("LogLevel".to_string(), inner(2)), ("sizeLimit".to_string(), V::Int(3))];
+        if u.chance(1, 2) {
+            entries.swap(0, 1);
+        }
+        if let V::Map(m) = &mut doc {
+            m.retain(|(k, _)| k != "ServiceConfig");
+            m.push(("ServiceConfig".into(), V::Map(entries)));
+        }
+        let q = |keys: &[&str], tail: Vec<Part>| {
+            let mut parts: Vec<Part> = keys[1..].iter().map(|k| Part::Key(k.to_string())).collect();
+            parts.extend(tail);
+            Query { head: Head::Key(keys[0].to_string()), parts }
+        };
+        let mut c1 = cl_un(q(&["service_config", "log_level", "targets"], vec![Part::Idx(5)]), UnOp::Exists, false);
+        c1.msg = Some("cc1".into());
+        let mut c2 = cl_un(q(&["service_config", "log_level", "nosuch", "deeper"], vec![]), UnOp::Exists, false);
+        c2.msg = Some("cc2".into());
+        let mut c3 = cl_bin(q(&["service_config", "log_level", "k"], vec![]), BinOp::Eq, false, Lit::V(V::Int(77)));
+        c3.msg = Some("cc3".into());
+        let mut c4 = cl_un(q(&["service_config", "size_limit", "nosuch"], vec![]), UnOp::Exists, false);
+        c4.msg = Some("cc4".into());
+        file.rules.push(Rule { name: "zcase".into(), when: None, lets: vec![], body: vec![vec![Item::Clause(c1)], vec![Item::Clause(c2)], vec![Item::Clause(c3)], vec![Item::Clause(c4)]] });
     }
     let style = *u.pick(&[Style::YamlBlock, Style::JsonPretty, Style::YamlFlow, Style::YamlBlock, Style::JsonCompact]);
     let w = write_doc(&doc, style, u, true);
